@@ -23,15 +23,20 @@ echo "-- demo with the change (expected FAIL):"
 ( cd $wt && git apply -R $src/patch.diff )
 echo "-- demo without the change (expected ok):"
 ( cd $wt && go test -count=1 -run 'SeedDemo' ./$demodir/ 2>&1 | tail -2 )
-git -C /repo worktree remove --force $wt
-echo "-- our checks on /repo with the change applied:"
-git -C /repo apply $src/patch.diff || { echo "cannot apply to /repo"; exit 2; }
-mkdir -p /root/scratch/seedout-$id; cp /verif/known_findings.json /verif/MANIFEST.json /root/scratch/seedout-$id/
+echo "-- our checks with the change applied (overlay build, /repo untouched):"
+( cd $wt && git apply $src/patch.diff )
+so=/root/scratch/seedout-$id; rm -rf $so; mkdir -p $so; cp /verif/known_findings.json /verif/MANIFEST.json $so/
+python3 - "$wt" "$src/patch.diff" "$so/overlay.json" <<'PY'
+import json,sys,re
+wt,patch,out=sys.argv[1:]
+files=[l[6:].strip() for l in open(patch) if l.startswith('+++ b/')]
+json.dump({"Replace":{"/repo/"+f: wt+"/"+f for f in files}}, open(out,"w"))
+PY
+( cd /verif && go build -tags verif -overlay $so/overlay.json -o $so/mc ./cmd/mc ) || { echo "overlay build failed"; exit 2; }
 for c in $checks; do
-  out=$(cd /verif && VERIF_DIR_OVERRIDE=/root/scratch/seedout-$id ./check.sh $c quick 2>&1)
+  out=$(cd /verif && VERIF_DIR=$so VERIF_BUDGET_S=150 $so/mc check $c quick 2>&1)
   echo "$c exit=$? $(echo "$out" | grep -c '^VIOLATION') violation line(s)"
   echo "$out" | grep -A2 "^VIOLATION" | head -9 | cut -c1-400
 done
-git -C /repo checkout -- .
-git -C /repo status --short | head -3
-rm -rf /root/scratch/seedout-$id
+git -C /repo worktree remove --force $wt
+rm -rf $so
